@@ -32,7 +32,7 @@ Record pj_idle (c : connp) (d : bytes) (rd : nat) (p : bytes) (prev : option res
   jd_next : c_out_next_tx_index c = pj_k w;
   jd_txs : c_txs c = pj_txs w t;
   jd_shift : c_txs_shifted c = 0%nat;
-  jd_intx : c_in_tx c <> Some (pj_k w);
+  jd_intx : (c_in_status c =? c_HTP_STREAM_DATA_OTHER)%Z = false;
   jd_other : c_out_data_other_at_tx_end c = false;
   jd_in : pj_qin c = jw_in w }.
 
